@@ -153,7 +153,9 @@ def section_fault():
             counter = [0]
             A, F = build(counter, trigger, exc)
             try:
-                F[6]
+                # the outermost request varies: single element, slice, list of orders, negative (wrapped) index on a finite axis is covered below
+                req = (6, slice(None, 7), [6, 5], slice(4, 7))[trigger % 4]
+                F[req]
                 fail("fault", "injected exception did not reach the caller", exc=exc.__name__, trigger=trigger)
             except BaseException as e:  # noqa: BLE001
                 ok = isinstance(e, exc) or (issubclass(exc, RuntimeError) and isinstance(e, RuntimeError))
@@ -169,6 +171,41 @@ def section_fault():
                     fail("fault", "values after a fault differ from an undisturbed computation", exc=exc.__name__, trigger=trigger, got=got, want=ref)
             except BaseException as e:  # noqa: BLE001
                 fail("fault", "series not reusable after a fault", exc=exc.__name__, trigger=trigger, error=repr(e))
+
+
+    # a series with a finite axis: faults under slice / negative / multi-entry requests on that axis
+    def build2(counter, trigger, exc):
+        def ev(i, n):
+            counter[0] += 1
+            if counter[0] == trigger:
+                raise exc("injected")
+            return (i + 1) * (n + 2) if n == 0 else G[i, n - 1] + i
+        G = BlockSeries(eval=ev, shape=(3,), n_infinite=1, name="G")
+        return G
+    c0 = [0]
+    Gref = build2(c0, -1, ValueError)
+    ref2 = {(i, n): Gref[i, n] for i in range(3) for n in range(4)}
+    requests = [(-1, 3), (slice(None), 3), ([0, 2], 2), (slice(1, 3), slice(None, 4)), (2, slice(None, 4))]
+    for exc in (ValueError, KeyboardInterrupt, RuntimeError):
+        for req in requests:
+            for trigger in range(1, 8):
+                cases += 1
+                counter = [0]
+                G = build2(counter, trigger, exc)
+                try:
+                    G[req]
+                    continue   # the trigger was not reached by this request
+                except BaseException:  # noqa: BLE001
+                    pass
+                stale = [k for k, v in G._data.items() if repr(v) == "pending"]
+                if stale:
+                    fail("fault", "in-flight marker left behind after an exception", series="G", exc=exc.__name__, trigger=trigger, request=req, keys=stale)
+                try:
+                    got = {k: G[k] for k in ref2}
+                    if got != ref2:
+                        fail("fault", "values after a fault differ from an undisturbed computation", exc=exc.__name__, trigger=trigger, request=req)
+                except BaseException as e:  # noqa: BLE001
+                    fail("fault", "series not reusable after a fault", exc=exc.__name__, trigger=trigger, request=req, error=repr(e))
 
 
 # ------------------------------------------------------------------------------ C18
